@@ -8,6 +8,10 @@ use std::{
 };
 
 thread_local! {
+    /// debugging aid (`sites_begin` / `sites_report`): backtraces of the allocations still live
+    static SITES_ON: Cell<bool> = const { Cell::new(false) };
+    static IN_HOOK: Cell<bool> = const { Cell::new(false) };
+    static SITES: std::cell::RefCell<Option<std::collections::HashMap<usize, (usize, std::backtrace::Backtrace)>>> = const { std::cell::RefCell::new(None) };
     static LIVE: Cell<i64> = const { Cell::new(0) };
     static TOTAL: Cell<u64> = const { Cell::new(0) };
 }
@@ -20,16 +24,20 @@ unsafe impl GlobalAlloc for Counting {
         if !p.is_null() {
             let _ = LIVE.try_with(|c| c.set(c.get() + l.size() as i64));
             let _ = TOTAL.try_with(|c| c.set(c.get() + l.size() as u64));
+            note(p as usize, l.size(), true);
         }
         p
     }
     unsafe fn dealloc(&self, p: *mut u8, l: Layout) {
+        note(p as usize, 0, false);
         unsafe { System.dealloc(p, l) };
         let _ = LIVE.try_with(|c| c.set(c.get() - l.size() as i64));
     }
     unsafe fn realloc(&self, p: *mut u8, l: Layout, new: usize) -> *mut u8 {
+        note(p as usize, 0, false);
         let q = unsafe { System.realloc(p, l, new) };
         if !q.is_null() {
+            note(q as usize, new, true);
             let _ = LIVE.try_with(|c| c.set(c.get() + new as i64 - l.size() as i64));
             if new > l.size() {
                 let _ = TOTAL.try_with(|c| c.set(c.get() + (new - l.size()) as u64));
@@ -47,4 +55,55 @@ pub fn live() -> i64 {
 /// Bytes ever allocated by this thread; stays 0 if the counting allocator is not installed.
 pub fn total() -> u64 {
     TOTAL.with(|c| c.get())
+}
+
+fn note(p: usize, size: usize, add: bool) {
+    if !SITES_ON.try_with(|c| c.get()).unwrap_or(false) || IN_HOOK.with(|c| c.replace(true)) {
+        return;
+    }
+    SITES.with(|m| {
+        if let Some(m) = m.borrow_mut().as_mut() {
+            if add {
+                m.insert(p, (size, std::backtrace::Backtrace::force_capture()));
+            } else {
+                m.remove(&p);
+            }
+        }
+    });
+    IN_HOOK.with(|c| c.set(false));
+}
+
+/// Start remembering where this thread's allocations come from (debugging aid, slow).
+pub fn sites_begin() {
+    IN_HOOK.with(|c| c.set(true));
+    SITES.with(|m| *m.borrow_mut() = Some(Default::default()));
+    IN_HOOK.with(|c| c.set(false));
+    SITES_ON.with(|c| c.set(true));
+}
+
+/// The allocations made since `sites_begin` that are still live, grouped by the innermost frames
+/// that are not allocator or container plumbing: (bytes, count, frames), largest first.
+pub fn sites_report(top: usize) -> Vec<(usize, usize, String)> {
+    SITES_ON.with(|c| c.set(false));
+    IN_HOOK.with(|c| c.set(true));
+    let m = SITES.with(|m| m.borrow_mut().take()).unwrap_or_default();
+    let mut agg: std::collections::HashMap<String, (usize, usize)> = Default::default();
+    for (_, (size, bt)) in m {
+        let txt = bt.to_string();
+        let frames: Vec<&str> = txt
+            .lines()
+            .filter(|l| !l.trim_start().starts_with("at "))
+            .map(|l| l.trim().splitn(2, ": ").nth(1).unwrap_or(l))
+            .filter(|l| !(l.starts_with("std::") || l.starts_with("core::") || l.starts_with("alloc::") || l.starts_with("<alloc::") || l.starts_with("<std::") || l.starts_with("<core::") || l.contains("qv::alloc") || l.starts_with("__rust") || l.starts_with("hashbrown") || l.starts_with("<hashbrown")))
+            .take(6)
+            .collect();
+        let e = agg.entry(frames.join(" <- ")).or_default();
+        e.0 += size;
+        e.1 += 1;
+    }
+    let mut v: Vec<(usize, usize, String)> = agg.into_iter().map(|(k, (b, n))| (b, n, k)).collect();
+    v.sort_by(|a, b| b.0.cmp(&a.0));
+    v.truncate(top);
+    IN_HOOK.with(|c| c.set(false));
+    v
 }
